@@ -60,6 +60,16 @@ def malformedOk : DevState → Bool
   | .ready (.ct false _ _ (.response st []) false) => st == 11 || st == 12
   | _ => false
 
+/-- after `prepare_response` for the documents `expected` (those of the request that the holder holds and permits): the device is
+signing exactly those documents, none signed yet, status 0 - or, with nothing to sign, the (empty, status 0) response is ready.
+Whatever was pending before - a half-signed response, a finished one not yet collected - is superseded. -/
+def prepareOk (expected : List Nat) (after : DevState) : Bool :=
+  match expected, after with
+  | [], .ready (.ct false _ _ (.response 0 []) false) => true
+  | [], _ => false
+  | _, .signing p [] 0 => p.length == expected.length && expected.all p.contains && p.all expected.contains
+  | _, _ => false
+
 /-- `offered` is what get_next_signature_payload showed before the call -/
 def submitOk (before after : DevState) (offered : Option Nat) (sig : Nat) : Bool :=
   match before, offered with
